@@ -1601,6 +1601,9 @@ class ConfigInformation:
         objects = {}
         import experimaestro.taskglobals as taskglobals
 
+        # Modules loaded from a file (not part of a package)
+        filemodules = {}
+
         # Loop over all the definitions and create objects
         for definition in definitions:
             module_name = definition["module"]
@@ -1610,12 +1613,21 @@ class ConfigInformation:
                 module_name = "_main_"
 
             if "file" in definition:
+                # A file is executed once: executing it for each object would
+                # give each object its own copy of the classes (and a
+                # sub-configuration would not be an instance of the class its
+                # parent expects)
                 path = definition["file"]
-                with add_to_path(str(Path(path).parent)):
-                    spec = importlib.util.spec_from_file_location(module_name, path)
-                    mod = importlib.util.module_from_spec(spec)
-                    sys.modules[module_name] = mod
-                    spec.loader.exec_module(mod)
+                mod = filemodules.get((module_name, path), None)
+                if mod is None:
+                    with add_to_path(str(Path(path).parent)):
+                        spec = importlib.util.spec_from_file_location(
+                            module_name, path
+                        )
+                        mod = importlib.util.module_from_spec(spec)
+                        sys.modules[module_name] = mod
+                        spec.loader.exec_module(mod)
+                    filemodules[(module_name, path)] = mod
             else:
                 try:
                     logger.debug("Importing module %s", definition["module"])
